@@ -231,7 +231,7 @@ def run(tier, seed, jobs) -> Result:
     s_exec = s_steps = 0
     per = []
     for sc in s_scenarios():
-        r = sched.explore(sc, 2 if tier == "quick" else 3, jobs, seed, max_exec=100000 if tier == "quick" else 600000)
+        r = sched.explore(sc, 2 if tier == "quick" else 3, jobs, seed, max_exec=100000 if tier == "quick" else 120000)
         for f in r["failures"]:
             if f.rule.startswith("C10.command-never") or f.rule.startswith("C10.answered-by-watchdog"):
                 f.rule = "C06." + f.rule.split(".", 1)[1]
